@@ -19,7 +19,7 @@ CHECKS = {
    note="Trusted: reference APDU framing in refcodec.rs; RawFrame sees exactly the slice the transport passes to a parser."),
  "C05": dict(level="exploration", engine=WIRE, ref="6 (C05)",
    technique="deterministic simulation: seeded search over reply scripts x terminal release modes x I/O schedules against a reference model of the sequence layer",
-   text="Each of the 17 real Sequence::into_stream runs against a scripted terminal: every script non-final^d final over the command's reply alphabet to depth 3 (quick) / 4 (thorough), PRNG scripts to depth 40, in lockstep (next reply only after exactly one answer), eager (everything queued: read-ahead visible on the cursor) and paced mode, under whole / one-byte / PRNG chunking, short writes and Pending. The reference model predicts, event by event, command frame, one 80 00 00 per packet written at the packet's end offset and before the item is handed over, items in order with the packet type's own decode, end right after the first final packet, cursor at its end, queued tail untouched, no I/O after the end. (The firmware upload's answer discipline is decided in C11.)",
+   text="Each of the 17 real Sequence::into_stream - and the real firmware upload WriteFile::into_stream as an 18th, with PRNG payload directories and request scripts - runs against a scripted terminal: every script non-final^d final over the command's reply alphabet to depth 3 (quick) / 4 (thorough), PRNG scripts to depth 40, in lockstep (next reply only after exactly one answer), eager (everything queued: read-ahead visible on the cursor) and paced mode, under whole / one-byte / PRNG chunking, short writes and Pending. The reference model predicts, event by event, command frame, one 80 00 00 per packet written at the packet's end offset and before the item is handed over, items in order with the packet type's own decode, end right after the first final packet, cursor at its end, queued tail untouched, no I/O after the end. Packets longer than 254 bytes (extended header) occur in every alphabet.",
    note="Trusted: the reply-alphabet table (DESIGN 5.2), reference codec; bounded depth."),
  "C06": dict(level="fault_enumeration", engine=WIRE, ref="6 (C06)",
    technique="deterministic simulation: single-fault enumeration at every position of every exchange, multi-fault seeded search",
@@ -35,31 +35,31 @@ CHECKS = {
    note="Trusted: harness copy of the path->id table; real files on tmpfs without disk faults (no seam in WriteFile); reference TLV codec."),
  "C07": dict(level="exploration", engine=CLIENT, ref="6 (C07)",
    technique="deterministic simulation: bounded-exhaustive and seeded call histories against a stateful simulated terminal, refinement check against a token->receipt reference model",
-   text="The real Feig (real Feig::new, reconnecting stream, handshake, sequences, codec) runs on a paused tokio clock against the stateful simulated terminal (ledger, receipt counter). Every history over begin/commit/cancel x tokens {A,B,''} to depth 3 (quick) / 4 (thorough) x maximum 0..3 x terminal outcomes {success, abort, no receipt number}, depth-5 call sequences and PRNG walks to depth 40 over 5 tokens under PRNG I/O schedules and emission delays. After every call the reference model decides: refused calls fail with the documented error and cause no traffic at all; an accepted begin sends one Reservation and opens the token iff the terminal issued a receipt; commit/cancel send their reversal with exactly the receipt the terminal's ledger recorded for that token's reference and close the token; ledger cross-invariant for all open tokens.",
+   text="The real Feig (real Feig::new, reconnecting stream, handshake, sequences, codec) runs on a paused tokio clock against the stateful simulated terminal (ledger, receipt counter). Every history over begin/commit/cancel x tokens {A,B,''} to depth 3 (quick) / 4 (thorough) x maximum 0..3 x terminal outcomes {success, abort, no receipt number}, depth-5 call sequences and PRNG walks to depth 40 over 5 tokens under PRNG I/O schedules and emission delays. After every call the reference model decides: refused calls fail with the documented error and cause no traffic at all; an accepted begin sends one Reservation and opens the token iff the terminal issued a receipt; commit/cancel send their reversal with exactly the receipt the terminal's ledger recorded for that token's reference and close the token; ledger cross-invariant for all open tokens. A further family runs PRNG histories under transport faults (EOF, reset, NACK, undecodable body, silence, stall inside a packet, EPIPE, refused connect) against the results-only part of the model: the token map is tracked from the returned results, so refusals without traffic, 'same receipt on every attempt' and 'receipt was offered for this reference' stay decidable.",
    note="Trusted: the simulated terminal (pt.rs) and the reference codec; fault-free transport (faults: C09/C10)."),
  "C08": dict(level="exploration", engine=CLIENT, ref="6 (C08)",
    technique="deterministic simulation: seeded search over amounts, currencies, tokens, receipt numbers and terminal status fields; requests decoded by an independent reference codec, ledger conservation",
-   text="Same engine, value-focused workload: boundary grid pre-authorisation {0,1,2,2500,99999,100000,10^12-2,10^12-1} x final amount {0,1,pre-1,pre,pre+1,2pre,u64::MAX,u64::MAX-1,2^63} x 3 currencies (exhaustive), PRNG amounts over every digit count, CP437 tokens 0..64 bytes, receipt counter incl. wrap at 9999, status fields over their ranges, passwords 0..999999, 1-3 concurrent transactions. Oracle: Reservation carries the configured amount/currency, payment type 40 and AC/token; PartialReversal carries max(pre-final,0) (computed in u128), the reservation's receipt, currency and token; PreAuthReversal its receipt and currency; the terminal's ledger ends with exactly that amount released; the summary equals numerically the status information the terminal sent.",
+   text="Same engine, value-focused workload: boundary grid pre-authorisation {0,1,2,2500,99999,100000,10^12-2,10^12-1} x final amount {0,1,pre-1,pre,pre+1,2pre,u64::MAX,u64::MAX-1,2^63} x 3 currencies (exhaustive), PRNG amounts over every digit count, CP437 tokens 0..64 bytes, receipt counter incl. wrap at 9999, status fields over their ranges, passwords 0..999999, 1-3 concurrent transactions. Oracle: Reservation carries the configured amount/currency, payment type 40 and AC/token; PartialReversal carries max(pre-final,0) (computed in u128), the reservation's receipt, currency and token; PreAuthReversal its receipt and currency; the terminal's ledger ends with exactly that amount released; the summary equals numerically the last status information the terminal sent (a preliminary one with other values may precede it). The client's configuration goes through the crate's own JSON deserializer (currency by ISO 4217 name, independent table in the harness); a further family repeats the value workload under transport faults (every request incl. retries must carry the right fields; the summary must be that of the exchange the terminal completed).",
    note="Trusted: reference codec (BMP table, TLV); yore's CP437 table for token bytes; simulated terminal's ledger."),
  "C09": dict(level="fault_enumeration", engine=CLIENT, ref="6 (C09)",
    technique="deterministic simulation with fault injection: single-fault enumeration over every emission point of every connection, seeded multi-fault search, oracle over the per-connection event log",
-   text="Faulty-transport configuration: one fault at every emission point of connection 0 (handshake, Feig::new's configure, every exchange of 5 workloads; points found by a fault-free dry run) x {EOF, EOF mid-frame, ECONNRESET, NACK, foreign control field, undecodable body, junk, silence, wrong serial}, the same plus a second fault at each handshake point of the retry connection, 0..21 refused connects, serial in other letter case, non-final packets in the pending query, PRNG multi-fault sequences over connections 0..5 with PRNG schedules. Oracle on the event log: R1 every connection starts with Registration (configured password/currency) and the identity request, commands only after a matching serial; R2 after a fault no client frame on that connection and it is dropped before the next opens / the call returns; R2b the terminal never sees a frame stacked on an unfinished exchange; R3 a call without fault keeps the connection for the next; R4 one connection at a time; R5 a state-independent call after the last fault succeeds.",
+   text="Faulty-transport configuration: one fault at every emission point of connection 0 (handshake, Feig::new's configure, every exchange of 5 workloads; points found by a fault-free dry run) x {EOF, EOF mid-frame, ECONNRESET, NACK, foreign control field, undecodable body, junk, silence, stall inside a packet, EPIPE on the client's next write, wrong serial}, the same plus a second fault at each handshake point of the retry connection, 0..21 refused connects, serial in other letter case (accepted), serial differing in any other way incl. shorter/longer/prefix (never used for commands), non-final packets in the pending query, PRNG multi-fault sequences over connections 0..5 with PRNG schedules. Oracle on the event log: R1 every connection starts with Registration (configured password/currency) and the identity request, commands only after a matching serial; R2 after a fault no client frame on that connection and it is dropped before the next opens / the call returns; R2b the terminal never sees a frame stacked on an unfinished exchange; R3 a call without fault keeps the connection for the next; R4 one connection at a time; R5 a state-independent call after the last fault succeeds.",
    note="Trusted: lockstep terminal model; abort = completed exchange; no time-out value in the oracle."),
  "C10": dict(level="fault_enumeration", engine=CLIENT, ref="6 (C10)",
    technique="deterministic simulation with fault injection on a discrete-event clock: stall enumeration at every emission point, connect hangs, exhaustive read_card_timeout",
-   text="A stall (silence) at every emission point of connection 0 x later connections {healthy, stall at the same point, dead terminal stalling in every retry handshake, connect never completes}, connect-hang patterns, read_card_timeout 0..255 x card arrival {at once, 1 ms before the window closes, mid-window} and x a terminal that never answers, configuration extremes, PRNG stalls with schedule noise. W1: every public call returns Ok/Err before a one-virtual-day watchdog and never panics (overflow checks on). W2: a card delivered inside the configured window is answered on the first connection for every time-out value. The bound itself (max virtual duration, attempts) is reported, not judged.",
+   text="A stall (silence) at every emission point of connection 0 x later connections {healthy, stall at the same point, terminal dead for ever (stalls in the handshake of every later connection, without end), every later connect never completes}, connect-hang patterns, read_card_timeout 0..255 x card arrival {at once, 1 ms before the window closes, mid-window} and x a terminal that never answers, configuration extremes, PRNG stalls with schedule noise. W1: every public call returns Ok/Err before a one-virtual-day watchdog and never panics (overflow checks on). W2: a card delivered inside the configured window is answered on the first connection for every time-out value. The bound itself (max virtual duration, attempts) is reported, not judged.",
    note="Trusted: tokio's paused clock as discrete-event time; delays never tie with timers."),
  "C18": dict(level="exploration", engine=CLIENT, ref="6 (C18)",
    technique="deterministic simulation: read_card against simulated status replies, each card presented repeatedly under different schedules, compared with the stated classification function",
-   text="read_card through the real client against status replies: grid of 16 UID forms (absent, empty, 1..20 bytes, zero-padded, exactly 7/8/10 bytes) x 9 application-list forms, each presented three times in one run under different schedules, delays and BMP orders; all 256 abort codes; PRNG cards presented repeatedly. Oracle f(reply): first application entry with id -> Bank; entries listed but first without id -> Bank or error, never Membership; no entries and UID -> Membership(upper-case hex, last 14 digits, one leading 000000 removed), identical for every presentation; 6C -> NoCardPresented; other aborts / nothing usable -> error.",
+   text="read_card through the real client against status replies: grid of 16 UID forms (absent, empty, 1..20 bytes, zero-padded, exactly 7/8/10 bytes) x 9 application-list forms, each presented three times in one run under different schedules, delays and BMP orders; all 256 abort codes; PRNG cards presented repeatedly. Oracle f(reply): first application entry with id -> Bank; entries listed but first without id -> Bank or error, never Membership; no entries and UID -> Membership(upper-case hex, last 14 digits, one leading 000000 removed), identical for every presentation; 6C -> NoCardPresented; other aborts / nothing usable -> error. The grid is repeated with a connection failure and reconnect between / inside the presentations (a card is never classified wrongly, whatever the transport does).",
    note="Trusted: the classification function as stated in the property; applications listed only inside tag 62 are outside the anchored mechanism and not judged."),
  "C19": dict(level="exploration", engine=CLIENT, ref="6 (C19)",
    technique="deterministic simulation: call histories x terminal ledgers x end-of-day outcomes, temporal oracle over the ordered request log",
-   text="commit/cancel x (another token open or not) x pending-query answer {FFFF, no BMP 87, dangling receipt} x end-of-day outcome {completion, all 256 abort codes} with and without intermediate/print packets (exhaustive grid), every history to depth 3, PRNG walks with clean-up variants. Oracle on the request log of each call: own reversal completed and no token left open -> next frames are exactly 06 23/FFFF, then iff a receipt was reported its 06 25 (configured currency), then 06 50 (configured password); Ok for completion and abort A0, error for any other code; while other tokens are open neither 06 50 nor the query is sent.",
+   text="commit/cancel x (another token open or not) x pending-query answer {FFFF, no BMP 87, dangling receipt} x end-of-day outcome {completion, all 256 abort codes} with and without intermediate/print packets (exhaustive grid), every history to depth 3, PRNG walks with clean-up variants. Oracle on the request log of each call: own reversal completed and no token left open -> next frames are exactly 06 23/FFFF, then iff a receipt was reported its 06 25 (configured currency), then 06 50 (configured password); Ok for completion and abort A0, error for any other code; while other tokens are open neither 06 50 nor the query is sent; end-of-day never reaches the terminal while a dangling pre-authorisation it reported (or tried to report) is still open - also when its reversal was refused or the query was hit by a transport fault (PRNG histories under faults).",
    note="Trusted: simulated terminal's pending-query behaviour (2.10.1); nothing is asserted when the terminal refused the call's own reversal."),
  "C20": dict(level="exploration", engine=CLIENT, ref="6 (C20)",
    technique="deterministic simulation: every abort-capable exchange x all 256 result codes x abort position, against the simulated terminal",
-   text="9 abort-capable exchanges (read card, reservation, partial reversal, pre-auth reversal, end-of-day after commit / after cancel, configure's system info / set terminal id / initialisation) x all 256 codes x abort after 0..3 non-final packets (exhaustive), configure's end-of-day x 256, PRNG walks with raised abort rate. Oracle: the call fails (never Ok) and the error identifies the code (structured Aborted(c), the number as decimal/hex token, or for card reading the chapter-10 message of c and not of another code); exactly three exceptions: read card + 6C -> NoCardPresented, reservation + FC -> NeedsPinEntry, end-of-day + A0 tolerated.",
+   text="9 abort-capable exchanges (read card, reservation, partial reversal, pre-auth reversal, end-of-day after commit / after cancel, configure's system info / set terminal id / initialisation) x all 256 codes x abort after 0..3 non-final packets (exhaustive), configure's end-of-day x 256, PRNG walks with raised abort rate. Oracle: the call fails (never Ok) and the error identifies the code (structured Aborted(c), the number as decimal/hex token, or for card reading the chapter-10 message of c and not of another code); exactly three exceptions: read card + 6C -> NoCardPresented, reservation + FC -> NeedsPinEntry, end-of-day + A0 tolerated. Under transport faults (every emission point of cancel/commit/begin x 6 fault kinds, PRNG histories): an abort that the terminal delivered for the last attempt of the call's own command is never reported as success (e.g. 'already reversed' on a repeated reversal).",
    note="Trusted: chapter-10 message table transcribed in model.rs; handshake-level aborts are retried by design and not part of the seven anchored places."),
 }
 
